@@ -45,7 +45,7 @@ func init() {
 			}
 			return []runner.Phase{
 				{Name: "scenarios", Variant: "race", Cases: n, Run: c14case, CaseTimeout: 120 * time.Second,
-					Required: []string{"executes_checked", "batch_entries_checked", "concurrent_first_use", "prepare_failures_scripted", "unprepared_scripted", "wrong_arity_calls", "small_cache_scenarios", "deadline_scenarios", "callers_ended_by_their_own_deadline"}},
+					Required: []string{"executes_checked", "batch_entries_checked", "concurrent_first_use", "prepare_failures_scripted", "unprepared_scripted", "wrong_arity_calls", "small_cache_scenarios", "deadline_scenarios", "callers_ended_by_their_own_deadline", "reused_query_scenarios"}},
 			}
 		},
 	})
@@ -60,6 +60,8 @@ type c14node struct {
 	failN       map[int]int    // statement -> remaining PREPAREs to fail
 	dropN       map[int]int    // statement -> remaining PREPAREs answered by dropping the connection
 	execN       map[int]int
+	forgetEvery map[int]int // statement -> forget it again after every this many EXECUTEs it served
+	servedN     map[int]int
 	forgetAfter map[int]int // statement -> forget the id after this many EXECUTEs (once)
 	delay       time.Duration
 	scripted    map[int]bool
@@ -179,6 +181,14 @@ func (n *c14node) handler(sc *fakenode.ServerConn, req *fakenode.Req) {
 			delete(n.forgetAfter, j)
 		}
 		cur := n.gen[j]
+		if fe := n.forgetEvery[j]; fe > 0 && g >= cur {
+			// a node that keeps losing its prepared statements: after every fe-th execution it served (counting
+			// served ones only keeps the work bounded when many executors chase the current id)
+			n.servedN[j]++
+			if n.servedN[j]%fe == 0 {
+				n.gen[j]++
+			}
+		}
 		n.mu.Unlock()
 		if g < cur {
 			atomic.AddInt64(&n.st.unprep, 1)
@@ -228,7 +238,7 @@ func c14case(c *runner.Ctx, i int) {
 	var nodes []*c14node
 	scriptFail, scriptForget := false, false
 	for k, nd := range cl.Nodes {
-		n := &c14node{st: st, idx: k, gen: map[int]int{}, prepN: map[string]int{}, failN: map[int]int{}, dropN: map[int]int{}, execN: map[int]int{}, forgetAfter: map[int]int{}, scripted: map[int]bool{}}
+		n := &c14node{st: st, idx: k, gen: map[int]int{}, prepN: map[string]int{}, failN: map[int]int{}, dropN: map[int]int{}, execN: map[int]int{}, forgetAfter: map[int]int{}, forgetEvery: map[int]int{}, servedN: map[int]int{}, scripted: map[int]bool{}}
 		n.delay = []time.Duration{0, 0, 300 * time.Microsecond, 3 * time.Millisecond}[r.Intn(4)]
 		for j := 0; j < ns; j++ {
 			switch r.Intn(10) {
@@ -277,6 +287,22 @@ func c14case(c *runner.Ctx, i int) {
 	if executors > 1 {
 		c.Add("concurrent_first_use", 1)
 	}
+	// executors that keep one Query object and bind it again for every round (the documented way to reuse a query),
+	// against nodes that lose their prepared statements again and again: every loss is recovered from
+	reuseQuery := r.Intn(3) == 0 && executors <= 8
+	if reuseQuery {
+		c.Add("reused_query_scenarios", 1)
+		for _, n := range nodes {
+			n.mu.Lock()
+			for j := 0; j < ns; j++ {
+				if r.Intn(2) == 0 {
+					n.forgetEvery[j] = 3 + r.Intn(6)
+					n.scripted[j] = true
+				}
+			}
+			n.mu.Unlock()
+		}
+	}
 	// some executors run under a context deadline that is shorter than the node's PREPARE latency: whoever of them
 	// starts the PREPARE gives up, which must not take the executors waiting on the same PREPARE down with it
 	// (only with a cache that holds every statement: with evictions every execution prepares again, and the
@@ -291,6 +317,9 @@ func c14case(c *runner.Ctx, i int) {
 		}
 	}
 	rounds := 1 + r.Intn(4)
+	if reuseQuery {
+		rounds = 6 + r.Intn(8)
+	}
 	var wg sync.WaitGroup
 	var emu sync.Mutex
 	errs := map[string]int{}
@@ -303,6 +332,7 @@ func c14case(c *runner.Ctx, i int) {
 				defer wg.Done()
 				rr := rand.New(rand.NewSource(seed))
 				<-start
+				var kept *gocql.Query
 				for k := 0; k < rounds; k++ {
 					var err error
 					ctx := context.Background()
@@ -319,7 +349,19 @@ func c14case(c *runner.Ctx, i int) {
 						b.Query(c14stmt(j2), fmt.Sprintf("tag%d", j2), k)
 						c.Guard("ExecuteBatch", func() { err = sess.ExecuteBatch(b) })
 					} else {
-						c.Guard("Query.Exec", func() { err = sess.Query(c14stmt(j), fmt.Sprintf("tag%d", j), k).WithContext(ctx).Exec() })
+						q := kept
+						if q == nil {
+							q = sess.Query(c14stmt(j))
+							if reuseQuery {
+								kept = q
+							}
+						}
+						q.Bind(fmt.Sprintf("tag%d", j), k)
+						if hasDeadline {
+							c.Guard("Query.Exec", func() { err = q.WithContext(ctx).Exec() }) // (WithContext works on a copy)
+						} else {
+							c.Guard("Query.Exec", func() { err = q.Exec() })
+						}
 					}
 					if hasDeadline && err != nil && (errors.Is(err, context.DeadlineExceeded) || strings.Contains(err.Error(), "deadline exceeded")) {
 						// this caller's own deadline
